@@ -22,4 +22,40 @@ CHECKS = {
         "text": "Every sequence over a 3-5 letter alphabet up to length 5-7 (quick/thorough), all keys/predicates/comparators, is run through the real sort/partition/search/min_element/all_of templates; helpers, ranges, hyperslab indexers, exact linear interpolation over small integer ranges; uniform and non-uniform grid lookups at knots, +-1 ulp and inside bins (doubles as ranks). TLC evaluates the reference definition for each record and also proves the enumeration complete. Exhaustive for the bounded part, sampled beyond.",
         "note": "Trusted: TLC, the rank abstraction in harness/vjson.hh, std::sort for preparing sorted inputs (re-checked by TLC). F-GRID-1 (UniformGrid::find within 1 ulp of knots) is a known finding modelled as the named deviation QueryUlpDeviation.",
     },
+    "C13": {
+        "engine": "tlc", "level": "model_checking", "design_ref": "DESIGN.md 4.6, 5 C13, A.5",
+        "technique": "TLA+ GF(2) specification of xorwow (Xorwow.tla: step T on 16-bit limbs, characteristic polynomial P, polynomial arithmetic mod P, table laws); TLC design check (XorwowMC: P(T)e_j=0 for all 160 basis vectors, table/digit/z^k/Weyl/injectivity/canonical lemmas); TLC trace validation (XorwowTrace) of every result of the real XorwowRngParams/XorwowRngEngine/Initializer/reseed_rng/GenerateCanonical code",
+        "text": "The 64 jump polynomials dumped from XorwowRngParams' host reference are each compared with z^(4^i) and z^(2^67 4^i) mod P computed by TLC from the laws jump[0]=z, jump[i+1]=jump[i]^4, jump_sub[0]=jump[31]^32. discard(n) of the real engine is recomputed as (z^n mod P)(T)s with Weyl word +(n mod 2^32)*362437 for all 160 basis states x all 96 single-digit counts d*4^i (exhaustive; fixes the action of every table entry by linearity), plus seeded random states with random 64-bit n, 0..3, 2^32+-1, 2^64-1. n<=4096 sequential draws are iterated in the spec and compared with discard(n). Initializer{seed,subsequence,offset} and sampled slots of reseed_rng (subsequence = event*size+slot on 64-bit limbs) are recomputed from the seed state read back from the code. Canonical doubles/floats are recomputed bit-exactly and checked < 1.",
+        "note": "P is derived by tools/xorwow_poly.py (Berlekamp-Massey) and verified by TLC on every run, not trusted. Trusted: period 2^160-1 (python confirms P primitive, outside TLC); event*size+slot < 2^64; SplitMix64 / mt19937 seeding not modelled (seed state read from the code); TLC, Bitwise module, limb encoding. Host double build only. F-RNG-1 (float canonical = 1.0f for words >= 0xffffff80) is a known finding modelled as the named deviation CanonFOne.",
+    },
+    "C01": {
+        "engine": "tlc", "level": "model_checking", "design_ref": "DESIGN.md 4.1, 5 C01",
+        "technique": 'TLA+ specification of the stepping loop (CoreLoop.tla: one action per kernel group, named clauses per property), TLC model checking of an implementation-shaped design model (CoreLoopMC: index arithmetic of the track-init executors refines the clauses; ledgers; capacities) and TLC trace validation (CoreLoopTrace) of seeded real-physics runs of the real Stepper observed by harness actions and callbacks',
+        "text": 'Per-step ledger W_pre = W_post + deposit + sum W(secondaries) with W = T + 2mc^2[positron] and per-event ledger W(primaries) = deposits + W(escaped) are evaluated by TLC on every step / event end of every validated run (Compton, pair production, Moller/Bhabha, annihilation, range end, tracking to the world boundary; mean and fluctuating loss; 1-64 slots; starved secondary stack); the design model shows the per-step clause plus exactly-once bookkeeping imply the event balance.',
+        "note": 'Trusted: TLC; the observer projection in harness/vsim.cc (reads Stepper::state_ref() through the public track views at generate/user_start/user_pre/user_post/end); quanta/rank/token abstraction of doubles; hand-built synthetic physics tables. The design model CoreLoopMC is exhaustive only within its constants (2-3 slots, <=2 secondaries per step, <=5 tracks, 3 iterations).',
+    },
+    "C02": {
+        "engine": "tlc", "level": "model_checking", "design_ref": "DESIGN.md 4.1, 5 C02",
+        "technique": 'TLA+ specification of the stepping loop (CoreLoop.tla: one action per kernel group, named clauses per property), TLC model checking of an implementation-shaped design model (CoreLoopMC: index arithmetic of the track-init executors refines the clauses; ledgers; capacities) and TLC trace validation (CoreLoopTrace) of seeded real-physics runs of the real Stepper observed by harness actions and callbacks',
+        "text": 'UniqueIds, PrimariesBecomeInits, StartFromInits, SecondariesBecomeTracks (multiset equality incl. parent, type, energy bits, birth position/time), KilledRemoved, StepsConsecutive, ExactlyOnce (born = finished + live + queued at every Stepper call and at event end), every reported counter and StepperResult, termination under a step cap; the design model proves the transcribed index arithmetic (both TrackOrder::none and init_charge) refines these clauses for all outcome sequences within its constants.',
+        "note": 'Trusted: TLC; the observer projection in harness/vsim.cc (reads Stepper::state_ref() through the public track views at generate/user_start/user_pre/user_post/end); quanta/rank/token abstraction of doubles; hand-built synthetic physics tables. The design model CoreLoopMC is exhaustive only within its constants (2-3 slots, <=2 secondaries per step, <=5 tracks, 3 iterations).',
+    },
+    "C05": {
+        "engine": "tlc", "level": "model_checking", "design_ref": "DESIGN.md 4.1, 5 C05",
+        "technique": 'TLA+ specification of the stepping loop (CoreLoop.tla: one action per kernel group, named clauses per property), TLC model checking of an implementation-shaped design model (CoreLoopMC: index arithmetic of the track-init executors refines the clauses; ledgers; capacities) and TLC trace validation (CoreLoopTrace) of seeded real-physics runs of the real Stepper observed by harness actions and callbacks',
+        "text": 'Continuity of E, t, position (bit tokens) and volume between consecutive steps and from initializer to first step, time/energy monotonicity, step > 0 unless stopped, step <= pre-step limit, step >= chord, reported volume = analytic point-in-box location, volume change only on a boundary step, status forward, on every step of every validated run.',
+        "note": 'Trusted: TLC; the observer projection in harness/vsim.cc (reads Stepper::state_ref() through the public track views at generate/user_start/user_pre/user_post/end); quanta/rank/token abstraction of doubles; hand-built synthetic physics tables. The design model CoreLoopMC is exhaustive only within its constants (2-3 slots, <=2 secondaries per step, <=5 tracks, 3 iterations).',
+    },
+    "C16": {
+        "engine": "tlc", "level": "fault_enumeration", "design_ref": "DESIGN.md 4.1, 5 C16",
+        "technique": 'TLA+ specification of the stepping loop (CoreLoop.tla: one action per kernel group, named clauses per property), TLC model checking of an implementation-shaped design model (CoreLoopMC: index arithmetic of the track-init executors refines the clauses; ledgers; capacities) and TLC trace validation (CoreLoopTrace) of seeded real-physics runs of the real Stepper observed by harness actions and callbacks',
+        "text": 'Fault configurations of the real loop: secondary capacity swept down to 2, initializer capacity from 1; every failed interaction must be clean (alive, nothing emitted, ledger intact), every capacity error justified by the configured capacity and raised before the count exceeds it, reset restores the start state and later events satisfy C01/C02 clauses; the design model enumerates every first-hit point of the initializer capacity. F-CAP-1 (capacity below one reservation => livelock) is a known finding.',
+        "note": 'Trusted: TLC; the observer projection in harness/vsim.cc (reads Stepper::state_ref() through the public track views at generate/user_start/user_pre/user_post/end); quanta/rank/token abstraction of doubles; hand-built synthetic physics tables. The design model CoreLoopMC is exhaustive only within its constants (2-3 slots, <=2 secondaries per step, <=5 tracks, 3 iterations).',
+    },
+    "C17": {
+        "engine": "tlc", "level": "model_checking", "design_ref": "DESIGN.md 4.1, 5 C17",
+        "technique": 'TLA+ specification of the stepping loop (CoreLoop.tla: one action per kernel group, named clauses per property), TLC model checking of an implementation-shaped design model (CoreLoopMC: index arithmetic of the track-init executors refines the clauses; ledgers; capacities) and TLC trace validation (CoreLoopTrace) of seeded real-physics runs of the real Stepper observed by harness actions and callbacks',
+        "text": "For six callback configurations (unfiltered full/partial selection, detector maps, nonzero filter combinations, SimpleCalo) the set of steps each callback received equals the set of observed steps passing the collector's combined filter, every delivered field equals the independently observed pre/post value bit for bit, calorimeter totals equal sums of passing deposits, ActionDiagnostic / StepDiagnostic equal the counts of observed steps. F-DIAG-1 (ActionDiagnostic skipped with one slot) was found by this check and fixed.",
+        "note": 'Trusted: TLC; the observer projection in harness/vsim.cc (reads Stepper::state_ref() through the public track views at generate/user_start/user_pre/user_post/end); quanta/rank/token abstraction of doubles; hand-built synthetic physics tables. The design model CoreLoopMC is exhaustive only within its constants (2-3 slots, <=2 secondaries per step, <=5 tracks, 3 iterations).',
+    },
 }
